@@ -587,6 +587,15 @@ CORPUS += [
 
 CORPUS += [
     # ---------------------------------------------------------------- C18
+    V("C18", "mtvrp-capacity-original-aliased", "rl4co/envs/routing/mtvrp/generator.py", 'capacity_original = vehicle_capacity.clone()', 'capacity_original = vehicle_capacity', 'C18.k'),
+    V("C18", "mtvrp-both-classes-same-mask", "rl4co/envs/routing/mtvrp/generator.py", 'backhaul_demand * ~is_linehaul', 'backhaul_demand * is_linehaul', 'C18.k'),
+    V("C18", "mtvrp-classes-independent-draws", "rl4co/envs/routing/mtvrp/generator.py", 'linehaul_demand * is_linehaul', 'linehaul_demand * (torch.rand(*batch_size, num_loc) > self.backhaul_ratio)', 'C18.k'),
+    V("C18", "fjsp-end-op-off-by-two", "rl4co/envs/scheduling/fjsp/generator.py", 'end_op_per_job = n_ope_per_job.cumsum(1) - 1', 'end_op_per_job = n_ope_per_job.cumsum(1) + 1', 'C18.k'),
+    V("C18", "fjsp-start-op-overlaps", "rl4co/envs/scheduling/fjsp/generator.py", 'end_op_per_job[:, :-1] + 1,', 'end_op_per_job[:, :-1] - 1,', 'C18.k'),
+    V("C18", "jssp-start-op-is-previous-end", "rl4co/envs/scheduling/jssp/generator.py", 'end_op_per_job[:, :-1] + 1,', 'end_op_per_job[:, :-1],', 'C18.k'),
+    V("C18", "eq-mtvrp-mask-commuted", "rl4co/envs/routing/mtvrp/generator.py", 'backhaul_demand * ~is_linehaul', '~is_linehaul * backhaul_demand', None),
+    V("C18", "eq-mtvrp-indicator-yoda", "rl4co/envs/routing/mtvrp/generator.py", 'is_linehaul = torch.rand(*batch_size, num_loc) > self.backhaul_ratio', 'is_linehaul = self.backhaul_ratio < torch.rand(*batch_size, num_loc)', None),
+    V("C18", "eq-fjsp-cumsum-function", "rl4co/envs/scheduling/fjsp/generator.py", 'end_op_per_job = n_ope_per_job.cumsum(1) - 1', 'end_op_per_job = torch.cumsum(n_ope_per_job, 1) - 1', None),
     V("C18", "mdcpdp-capacity-single-column", "rl4co/envs/routing/mdcpdp/generator.py", 'size=(*batch_size, self.num_depot),\n        )\n\n        # Sample lateness', 'size=(*batch_size, 1),\n        )\n\n        # Sample lateness', 'C18.j'),
     V("C18", "fjsp-one-machine-short", "rl4co/envs/scheduling/fjsp/generator.py", 'ma_seq_per_ops <= n_eligible_per_ops[..., None]', 'ma_seq_per_ops < n_eligible_per_ops[..., None]', 'C18.i'),
     V("C18", "fjsp-counter-from-zero", "rl4co/envs/scheduling/fjsp/generator.py", 'torch.arange(1, self.num_mas + 1)[None, None]', 'torch.arange(0, self.num_mas)[None, None]', 'C18.i'),
